@@ -110,5 +110,21 @@ LS_GETITEM = dict(target=f"{LS}.getitem_class", name=f"{LS}.getitem_class[multi-
                            f"forall(lambda k: implies(0 <= k and k < {C} and k != Y, result[k] == OFFV))",
                            f"result[Y] + ({C} - 1) * OFFV == 1"])
 
+# unlabeled samples keep the -1 marker whatever the class count (also for binary datasets, where the label is one scalar)
+LS_UNLABELED = dict(target=f"{LS}.getitem_class", name=f"{LS}.getitem_class[unlabeled]", self=dict(DS, smoothing=REAL),
+                    params={"idx": INT, "ctx": TOpt(VAL)}, merge=False, asserts={0: "internal"},
+                    requires=IDXREQ + ["0 < self.smoothing and self.smoothing <= 1", f"{C} >= 1", "LabelOf(self.dataset, idx) == -1"],
+                    ensures=["not IsScalar(result)",
+                             f"implies(not IsScalar(result), len(result) == {C})",
+                             f"implies(not IsScalar(result), forall(lambda k: implies(0 <= k and k < {C}, result[k] == -1)))"])
+# binary datasets: the scalar label moves by smoothing / 2 towards 1/2 and stays in [0, 1]
+LS_BINARY = dict(target=f"{LS}.getitem_class", name=f"{LS}.getitem_class[binary]", self=dict(DS, smoothing=REAL),
+                 params={"idx": INT, "ctx": TOpt(VAL)}, merge=False, asserts={0: "internal"},
+                 requires=IDXREQ + ["0 < self.smoothing and self.smoothing <= 1", f"{C} == 1",
+                                    "LabelOf(self.dataset, idx) == 0 or LabelOf(self.dataset, idx) == 1"],
+                 ensures=["IsScalar(result)",
+                          "implies(IsScalar(result), result == (1 - self.smoothing / 2 if LabelOf(self.dataset, idx) == 1 else self.smoothing / 2))",
+                          "implies(IsScalar(result), 0 <= result and result <= 1)"])
+
 CONTRACTS = [CG_MAP, CG_GETITEM, CG_GETALL, RS_MAP, RS_SHAPE, RS_GETITEM, RS_GETALL, SW_GETITEM, SW_GETALL, RC_GETITEM, RC_GETALL,
-             AG_GETITEM, AG_GETALL, SM_GETITEM, SM_GETALL, LS_GETITEM]
+             AG_GETITEM, AG_GETALL, SM_GETITEM, SM_GETALL, LS_GETITEM, LS_UNLABELED, LS_BINARY]
